@@ -536,6 +536,62 @@ def _check_call_api_func(fn):
 
 # ---------------------------------------------------------------------------------------------------------------------
 
+def parse_listen(api):
+    """which of get_listen's values reaches the access_level parameter of Session.reset_and_wait, and the event levels.
+    core/sessions.py: def reset_and_wait(self, <p1>, <p2>) with {p1, p2} = {timeout, access_level};
+    core/api/funcs/various.py get_listen: exactly one call session.reset_and_wait(<a>, <b>) / keywords, each argument being
+    `timeout` or `request.access_level`."""
+    with open(repo.path('qtoggleserver/core/sessions.py')) as f:
+        tree = ast.parse(f.read())
+    sig = None
+    for c in tree.body:
+        if isinstance(c, ast.ClassDef) and c.name == 'Session':
+            for m in c.body:
+                if isinstance(m, ast.FunctionDef) and m.name == 'reset_and_wait':
+                    a = m.args
+                    if a.vararg or a.kwarg or a.kwonlyargs or a.defaults or a.posonlyargs:
+                        raise Untranslatable('sessions.py: reset_and_wait signature')
+                    sig = [x.arg for x in a.args]
+    if sig is None or sig[0] != 'self' or sorted(sig[1:]) != ['access_level', 'timeout']:
+        raise Untranslatable('sessions.py: reset_and_wait(self, timeout, access_level) not found')
+    with open(repo.path('qtoggleserver/core/api/funcs/various.py')) as f:
+        tree = ast.parse(f.read())
+    fns = [n for n in tree.body if isinstance(n, ast.AsyncFunctionDef) and n.name == 'get_listen']
+    if len(fns) != 1:
+        raise Untranslatable('various.py: get_listen not found')
+    calls = [n for n in ast.walk(fns[0]) if isinstance(n, ast.Call) and isinstance(n.func, ast.Attribute)
+             and n.func.attr == 'reset_and_wait']
+    if len(calls) != 1 or dotted(calls[0].func) != 'session.reset_and_wait':
+        raise Untranslatable('various.py: get_listen does not call session.reset_and_wait exactly once')
+
+    def val(e):
+        d = dotted(e)
+        if d == 'timeout':
+            return 'timeout'
+        if d == 'request.access_level':
+            return 'level'
+        raise Untranslatable('various.py: reset_and_wait argument ' + ast.unparse(e)[:50])
+    bound = {}
+    for name, e in zip(sig[1:], calls[0].args):
+        bound[name] = val(e)
+    for k in calls[0].keywords:
+        if k.arg is None or k.arg in bound or k.arg not in sig[1:]:
+            raise Untranslatable('various.py: reset_and_wait keywords')
+        bound[k.arg] = val(k.value)
+    if sorted(bound) != ['access_level', 'timeout']:
+        raise Untranslatable('various.py: reset_and_wait arguments')
+    # the name `timeout` must be the validated query value / default, never reassigned from the level
+    for n in ast.walk(fns[0]):
+        if isinstance(n, ast.Assign) and any(dotted(t) == 'timeout' for t in n.targets) and 'access_level' in ast.unparse(n.value):
+            raise Untranslatable('various.py: get_listen derives timeout from the access level')
+    from harness.translate import eventtable
+    try:
+        table = eventtable.event_classes(eventtable.access_levels())
+    except Exception as e:
+        raise Untranslatable('event classes (harness/translate/eventtable.py): %s' % e)
+    return {'session_level': bound['access_level'], 'events': {r['type']: r['required'] for r in table}}
+
+
 def parse():
     global LAST
     LAST = None
@@ -572,7 +628,7 @@ def parse():
                 if g not in flags:
                     flags.append(g)
     LAST = {'api': api, 'entries': entries, 'classes': classes, 'json_methods': base['json_methods'], 'flags': flags,
-            'grant': base['grant'], 'derived': derived}
+            'grant': base['grant'], 'derived': derived, 'listen': parse_listen(api)}
     return LAST
 
 
@@ -630,6 +686,12 @@ def gen_text(t):
         '(* web/base.py APIHandler.prepare, after the AUTH_ENABLED gate: the level granted to a request *)',
         'Definition grant (present valid admin_empty : bool) (token_level : Z) : Z :=',
         '  let NONE := ACCESS_LEVEL_NONE in %s.' % t['grant'][0],
+        '',
+        '(* core/api/funcs/various.py get_listen -> core/sessions.py Session.reset_and_wait: the level the session listens at *)',
+        'Definition listen_session_level (level timeout : Z) : Z := %s.' % t['listen']['session_level'],
+        '(* REQUIRED_ACCESS of every event class, by TYPE (read by harness/translate/eventtable.py) *)',
+        'Definition gen_event_levels : list (string * Z) := %s.' % coq.lst(
+            sorted(t['listen']['events'].items()), lambda p: '(%s, %s)' % (s(p[0]), coq.z(p[1]))),
         '',
         'Definition gen_tables : tables := {|',
         '  t_routes := gen_routes; t_derived := gen_derived; t_hmeths := gen_hmeths; t_noauth := gen_noauth; t_levels := gen_levels;',
